@@ -316,6 +316,61 @@ def tlc_traces(run, module, files, cfg=None, par=6):
     return nt, ne, rejected
 
 
+def tlc_trace_nd_one(run, module, path, cfg=None, timeout=3600, xmx="4g"):
+    """Trace spec with silent/nondeterministic steps: accepted iff some path consumes every
+    line (high-water mark kept with TLCSet/TLCGet, -workers 1).  Returns (n, mark, out)."""
+    md = path + ".md"
+    args = ["-metadir", md, "-workers", "1", "-nowarning", "-config", (cfg or module) + ".cfg",
+            module + ".tla"]
+    rc, out = java(args, SPEC, env={"VERIF_FILE": path}, timeout=timeout, xmx=xmx)
+    shutil.rmtree(md, ignore_errors=True)
+    m = re.search(r'"VERIF-TRACE",\s*(\d+)', out)
+    m2 = re.findall(r'"VERIF-MARK",\s*(\d+)', out)
+    if not m or not m2:
+        raise Infra("trace validation of %s with %s did not complete (rc=%d):\n%s" % (
+            path, module, rc, clean(out)[-4000:]))
+    inv = re.search(r"Invariant (\w+) is violated", out)
+    return int(m.group(1)), int(m2[-1]), (inv.group(1) if inv else "")
+
+
+def tlc_traces_nd(run, module, files, cfg=None, max_rejects=8):
+    """Like tlc_traces for nondeterministic trace specs: on a rejection the offending trace is
+    located through the high-water mark, dropped, and the rest is validated again."""
+    nt = ne = 0
+    rejected = []
+    for f in files:
+        traces = split_traces(f)
+        nt += len(traces)
+        cur = f
+        rounds = 0
+        while traces:
+            n, mark, inv = tlc_trace_nd_one(run, module, cur, cfg)
+            if rounds == 0:
+                ne += n
+            if mark >= n and not inv:
+                break
+            pos = 0
+            idx = None
+            for ti, (key, first, lines) in enumerate(traces):
+                if pos + len(lines) >= mark + 1:
+                    idx = ti
+                    break
+                pos += len(lines)
+            if idx is None:
+                raise Infra("cannot locate rejected line %d in %s" % (mark + 1, cur))
+            key, first, lines = traces.pop(idx)
+            why = ("invariant %s violated" % inv) if inv else "no behaviour of the specification explains the next event"
+            rejected.append((key, mark + 1 - pos, lines, why))
+            rounds += 1
+            if rounds >= max_rejects:
+                break
+            cur = f + ".r%d" % rounds
+            with open(cur, "w") as o:
+                for _, _, ls in traces:
+                    o.writelines(ls)
+    return nt, ne, rejected
+
+
 def seed_tier(argv):
     seed = int(os.environ.get("VERIF_SEED", "1") or "1")
     return seed
